@@ -17,7 +17,8 @@ for sd in sorted(os.listdir('/verif/seeded')):
             obl = fo[0].split(':')[0].replace('notations/jschema/internal/', '').replace('github.com/jsightapi/jsight-schema-go-library/', '')
             break
     what = (m.get('summary') or m.get('needs_to_manifest', '')).strip().split('\n')[0][:110].replace('|', '/')
-    rows.append(f"| {sd} | {', '.join(f.split('/')[-1] for f in files)} | {', '.join(det) if det else '**missed**'} | {('`' + obl[:90] + '`') if obl else ''} |")
+    caught = ', '.join(det) if det else ('n/a (no longer applies: superseded by a fix)' if m.get('superseded_by_fix') else '**missed**')
+    rows.append(f"| {sd} | {', '.join(f.split('/')[-1] for f in files)} | {caught} | {('`' + obl[:90] + '`') if obl else ''} |")
 table = "| seed | file(s) changed | caught by | first failed obligation |\n|---|---|---|---|\n" + "\n".join(rows)
 p = '/verif/DESIGN.md'
 s = open(p).read()
@@ -25,5 +26,5 @@ a, b = '<!-- SEEDTABLE:BEGIN -->', '<!-- SEEDTABLE:END -->'
 if a in s:
     s = s[:s.index(a) + len(a)] + "\n" + table + "\n" + s[s.index(b):]
     open(p, 'w').write(s)
-n = len(rows); miss = sum('**missed**' in r for r in rows)
-print(f'{n} seeds, {n - miss} caught, {miss} missed')
+n = len(rows); miss = sum('**missed**' in r for r in rows); na = sum('n/a (' in r for r in rows)
+print(f'{n} seeds, {n - miss - na} caught, {miss} missed, {na} not applicable any more')
